@@ -25,21 +25,24 @@ Inductive shape :=
 | SStruct (fs : list shape)
 | SOpt (s : shape)
 | SVec (s : shape)
-| SKeyed (s : shape).
+| SKeyed (s : shape)
+| SBox (s : shape).      (* Box<T>: same encoding as T; patched as a whole (harness impl) *)
 
 (** one accessor of a chain: .field_i(), .unwrap(), .at_unkeyed(i), AtKeyed::new(.., k), and
-    [Era false]: hand the field on as a type-erased ArcField (`ArcField::from(field)`: same path,
+    [Era 0]: hand the field on as a type-erased ArcField (`ArcField::from(field)`: same path,
     same reader, the field's writer, tracking delegated to the wrapped field's track_field);
-    [Era true]: as an arena-allocated Field (`Field::from(ArcField::from(field))`, which delegates
-    everything to that ArcField) *)
-Inductive step := Fld (i : nat) | Unw | Idx (i : nat) | Key (k : Z) | Era (arena : bool).
+    [Era 1]: as an arena-allocated Field (`Field::from(ArcField::from(field))`, which delegates
+    everything to that ArcField); [Era 2] (first step only): start from the ArcStore handle of
+    the store instead of the arena-allocated Store; [Drf]: `.deref_field()` of a Box field
+    (DerefedField: same path, the boxed value) *)
+Inductive step := Fld (i : nat) | Unw | Idx (i : nat) | Key (k : Z) | Era (kind : nat) | Drf.
 
 Definition item_key (it : sexp) : Z := as_Z (nth_s 0 it).
 Definition keys_of (v : sexp) : list Z := map item_key (as_list v).
 
 (** what following a chain has reached *)
 Record reached := mkReached {
-  r_era : option bool;      (* the accessor is a type-erased handle: Some false ArcField, Some true Field *)
+  r_era : option nat;       (* the accessor is a handle: Some 0 ArcField, Some 1 Field, Some 2 ArcStore *)
   r_sh : shape;
   r_val : option sexp;      (* what reader() gives: None = no guard (key unknown to FieldKeys;
                                a stale index beyond the end, where the code panics, also ends here) *)
@@ -51,14 +54,16 @@ Record reached := mkReached {
 (** untracked look at the current value: is the child addressed by [st] there? *)
 Definition has_child (r : reached) (v : sexp) (st : step) : bool :=
   match r_sh r, st with
+  | _, Era 2 => match r_segs r, r_era r with [], None => true | _, _ => false end
   | SKeyed _, Era _ => false     (* there is no From<KeyedSubfield> for ArcField *)
-  | _, Era _ => match r_era r with Some true => false | _ => true end
+  | _, Era _ => match r_era r with Some 1 => false | _ => true end
                                  (* ... and none from Field (the harness does not unwrap it) *)
   | SStruct fs, Fld i => Nat.ltb i (length fs)
   | SOpt _, Unw => match as_list v with [_] => true | _ => false end
   | SVec _, Idx i => Nat.ltb i (length (as_list v))
   | SKeyed _, Idx i => Nat.ltb i (length (as_list v))
   | SKeyed _, Key k => existsb (Z.eqb k) (keys_of v)
+  | SBox _, Drf => true
   | _, _ => false
   end.
 
@@ -66,6 +71,7 @@ Definition has_child (r : reached) (v : sexp) (st : step) : bool :=
 Definition extend (r : reached) (v : sexp) (st : step) : reached :=
   match r_sh r, st with
   | _, Era a => mkReached (Some a) (r_sh r) (r_val r) (r_segs r) (r_lens r) (r_keys r)
+  | SBox s, Drf => mkReached None s (r_val r) (r_segs r) (r_lens r) (r_keys r)
   | SStruct fs, Fld i =>
       mkReached None (nth i fs SInt) (nth_error (as_list v) i) (r_segs r ++ [i]) (r_lens r ++ [i]) (r_keys r)
   | SOpt s, Unw =>
@@ -119,7 +125,7 @@ Fixpoint set_at (v : sexp) (lens : list nat) (new : sexp) : sexp :=
 (** PatchField::patch_field: the new value and the paths handed to `notify`, in order *)
 Fixpoint patch_val (sh : shape) (old new : sexp) (p : path) {struct sh} : sexp * list path :=
   match sh with
-  | SInt => if sexp_eqb old new then (old, []) else (new, [p])
+  | SInt | SBox _ => if sexp_eqb old new then (old, []) else (new, [p])
   | SStruct fs =>
       let fix go (fs : list shape) (os ns : list sexp) (i : nat) {struct fs} : list sexp * list path :=
         match fs, os, ns with
@@ -203,14 +209,20 @@ Definition wake (s : state) (e : nat) : state :=
   else mkState (st_val s) (st_keys s) (st_subs s) (st_srcs s) (st_queue s ++ [e])
                (st_wakes s ++ [e]) (st_runs s) (st_spos s) (st_last s).
 
-(** ArcTrigger::notify -> mark_subscribers_check: take the subscribers, mark each dirty
-    (which wakes its task) *)
-Definition notify_trig (s : state) (t : trig) : state :=
+(** ArcTrigger::notify -> mark_subscribers_check: take the subscribers, mark each dirty.
+    What mark_dirty does depends on the kind of subscriber ([md]): an effect task is woken
+    ([wake]); an ImmediateEffect runs at once ([mark_dirty] below). *)
+Definition notify_trig_g (md : state -> nat -> state) (s : state) (t : trig) : state :=
   let l := subs_of t (st_subs s) in
   let s' := mkState (st_val s) (st_keys s) (subs_set t [] (st_subs s)) (st_srcs s) (st_queue s)
                     (st_wakes s) (st_runs s) (st_spos s) (st_last s) in
-  fold_left wake l s'.
+  fold_left md l s'.
 
+Definition notify_all_g (md : state -> nat -> state) (s : state) (ts : list trig) : state :=
+  fold_left (notify_trig_g md) ts s.
+
+(** ... when every subscriber is an executor-scheduled effect *)
+Definition notify_trig (s : state) (t : trig) : state := notify_trig_g wake s t.
 Definition notify_all (s : state) (ts : list trig) : state := fold_left notify_trig ts s.
 
 (** ArcTrigger::track under observer [e] *)
@@ -230,8 +242,14 @@ Definition enc_read (v : option sexp) : sexp :=
 Definition root_reached (sh : shape) (s : state) : reached :=
   mkReached None sh (Some (st_val s)) [] [] (st_keys s).
 
-(** a reader: (iterate?, accessor chain) *)
-Definition reader := (bool * list step)%type.
+(** a reader: the kind of subscriber (0 Effect::new, 1 ImmediateEffect, 2 RenderEffect,
+    3 Memo read by an Effect, 4 Effect::new_isomorphic), the read entry point (1 = iterate over
+    the collection; 0 try_read, 2 try_get, 3 try_with, 4 track + untracked read,
+    5 track_field + reader, 6 / 7 OptionStoreExt::map / invert with a closure that reads the
+    inner value untracked: all of these track track_field of the addressed field and
+    read its value), and the accessor chain *)
+Record reader := mkReader { rd_kind : nat; rd_how : nat; rd_chain : list step }.
+Definition no_reader : reader := mkReader 0 0 [].
 
 (** what an iterating reader does on a collection field it has reached:
     Vec: `for item in field.iter_unkeyed() { item.try_read() }` — iter_unkeyed tracks the
@@ -264,13 +282,13 @@ Definition iterate (kc : list nat * list nat) (r : reached) (v : sexp) : list tr
     (Every run also tracks the reader's private `poke` trigger of the harness, which has no
     other subscriber: notifying it is [wake], see [HPoke].) *)
 Definition run_effect (sh : shape) (kc : list nat * list nat) (s : state) (e : nat) (rd : reader) : state :=
-  let chain := snd rd in
+  let chain := rd_chain rd in
   let subs1 := fold_left (unsubscribe e) (srcs_of e (st_srcs s)) (st_subs s) in
   let '(r, j) := walk (root_reached sh s) chain 0 in
   let full := Nat.eqb j (length chain) in
   let '(tr, val, km) :=
     if full then
-      match fst rd, r_val r with
+      match Nat.eqb (rd_how rd) 1, r_val r with
       | true, Some v => let '(tr, val, km) := iterate kc r v in (tr, [val], km)
       | _, _ => (track_field (r_segs r), [enc_read (r_val r)], r_keys r)
       end
@@ -298,7 +316,11 @@ Fixpoint drain (fuel : nat) (sh : shape) (readers : list reader) (sched : list n
           | Some (e, q) =>
               let s1 := mkState (st_val s) (st_keys s) (st_subs s) (st_srcs s) q (st_wakes s)
                                 (st_runs s) spos (st_last s) in
-              drain fuel sh readers sched kc (run_effect sh kc s1 e (nth e readers (false, [])))
+              (* a task number >= the number of readers stands for the freshly spawned task of a
+                 RenderEffect: its first poll finds no notification and does nothing *)
+              if Nat.ltb e (length readers)
+              then drain fuel sh readers sched kc (run_effect sh kc s1 e (nth e readers no_reader))
+              else drain fuel sh readers sched kc s1
           | None => s
           end
       end
@@ -312,16 +334,25 @@ Definition with_val_keys (s : state) (v : sexp) (km : keymap) : state :=
     306fca7/f31c725) — a keyed collection field WKeyed, everything else WField *)
 Definition kind_of (r : reached) : wkind :=
   match r_segs r, r_era r, r_sh r with
-  | [], None, _ => WRoot
+  | [], None, _ | [], Some 2, _ => WRoot
   | _, _, SKeyed _ => WKeyed
   | _, _, _ => WField
   end.
 
+(** what mark_dirty does to subscriber [e]: an ImmediateEffect re-runs synchronously, every
+    other kind of reader is an effect task that is woken *)
+Definition mark_dirty (sh : shape) (readers : list reader) (kc : list nat * list nat)
+           (s : state) (e : nat) : state :=
+  let rd := nth e readers no_reader in
+  if Nat.eqb (rd_kind rd) 1 then run_effect sh kc s e rd else wake s e.
+
 (** `*field.write() = new` (op 0) and `field.patch(new)` (op 1); [kc] = the visiting orders
     of FieldKeys::update.  Returns the state after the guard is dropped and whether a
-    guard was obtained. *)
-Definition do_set (sh : shape) (kc : list nat * list nat) (s : state) (chain : list step) (new : sexp)
-  : state * bool :=
+    guard was obtained.  The value is in place, the lock released and (for a keyed field,
+    since 4d4a6ab) the keys refreshed before anything is notified; Patch notifies the
+    changed paths after releasing the lock (since 71fff6e). *)
+Definition do_set_g (md : state -> nat -> state) (sh : shape) (kc : list nat * list nat) (s : state)
+           (chain : list step) (new : sexp) : state * bool :=
   let '(r, j) := walk (root_reached sh s) chain 0 in
   if negb (Nat.eqb j (length chain)) then (s, false) else
   match r_val r with
@@ -334,19 +365,23 @@ Definition do_set (sh : shape) (kc : list nat * list nat) (s : state) (chain : l
         | WKeyed => km_update (fst kc) (snd kc) (r_segs r) (keys_of new) (r_keys r)
         | _ => r_keys r
         end in
-      (notify_all (with_val_keys s v' km) (notified k (r_segs r)), true)
+      (notify_all_g md (with_val_keys s v' km) (notified k (r_segs r)), true)
   end.
 
-Definition do_patch (sh : shape) (s : state) (chain : list step) (new : sexp) : state * bool :=
+Definition do_patch_g (md : state -> nat -> state) (sh : shape) (s : state) (chain : list step)
+           (new : sexp) : state * bool :=
   let '(r, j) := walk (root_reached sh s) chain 0 in
   if negb (Nat.eqb j (length chain)) then (s, false) else
   match r_val r with
   | Some old =>
       let '(v, ps) := patch_val (r_sh r) old new (r_segs r) in
       let v' := set_at (st_val s) (r_lens r) v in
-      (notify_all (with_val_keys s v' (r_keys r)) (concat (map triggers_for_path ps)), true)
+      (notify_all_g md (with_val_keys s v' (r_keys r)) (concat (map triggers_for_path ps)), true)
   | None => (with_val_keys s (st_val s) (r_keys r), true)
   end.
+
+Definition do_set := do_set_g wake.
+Definition do_patch := do_patch_g wake.
 
 (** report and reset the logs *)
 Definition report (s : state) (extra : list sexp) : sexp * state :=
@@ -355,6 +390,22 @@ Definition report (s : state) (extra : list sexp) : sexp * state :=
 
 Definition init_state (v : sexp) (n_readers : nat) : state :=
   mkState v [] [] [] (seq 0 n_readers) [] [] 0 [].
+
+(** creation of the readers, in order: an ImmediateEffect and a RenderEffect run once at
+    creation, every other kind spawns a task (queued, first polled by the first drain) *)
+Definition enqueue (s : state) (e : nat) : state :=
+  mkState (st_val s) (st_keys s) (st_subs s) (st_srcs s) (st_queue s ++ [e]) (st_wakes s)
+          (st_runs s) (st_spos s) (st_last s).
+
+Definition create (sh : shape) (readers : list reader) (s : state) (e : nat) : state :=
+  let rd := nth e readers no_reader in
+  if Nat.eqb (rd_kind rd) 1 then run_effect sh ([], []) s e rd
+  else if Nat.eqb (rd_kind rd) 2
+       then enqueue (run_effect sh ([], []) s e rd) (length readers + e)   (* see [drain] *)
+       else enqueue s e.
+
+Definition init_general (sh : shape) (readers : list reader) (v : sexp) : state :=
+  fold_left (create sh readers) (seq 0 (length readers)) (mkState v [] [] [] [] [] [] 0 []).
 
 (** bookkeeping for the segment reports *)
 Definition oeqb (a b : option nat) : bool :=
@@ -377,7 +428,7 @@ Fixpoint zassoc {B} (k : Z) (l : list (Z * B)) : option B :=
 Definition chain_id (c : list step) : list nat :=
   concat (map (fun st => match st with
                          | Fld i => [0; i] | Unw => [1; 0] | Idx i => [2; i]
-                         | Key k => [3; Z.to_nat k] | Era a => [4; if a then 1 else 0] end) c).
+                         | Key k => [3; Z.to_nat k] | Era a => [4; a] | Drf => [5; 0] end) c).
 Fixpoint last_of (c : list nat) (m : list (list nat * list (Z * option nat))) : list (Z * option nat) :=
   match m with
   | [] => []
@@ -391,15 +442,15 @@ Inductive hstep := HSet (chain : list step) (v : sexp) | HPatch (chain : list st
                  | HPath (chain : list step) | HSegs (chain : list step) (ks : list Z)
                  | HPoke (e : nat) | HNop.
 
-Definition do_step (sh : shape) (readers : list reader) (sched : list nat)
-           (kc : list nat * list nat) (s : state) (h : hstep) : sexp * state :=
+Definition do_step_g (md : state -> nat -> state) (sh : shape) (readers : list reader)
+           (sched : list nat) (kc : list nat * list nat) (s : state) (h : hstep) : sexp * state :=
   let n := length readers in
   match h with
   | HSet chain v =>
-      let '(s1, ok) := do_set sh kc s chain v in
+      let '(s1, ok) := do_set_g md sh kc s chain v in
       report (drain n sh readers sched kc s1) [sbool ok]
   | HPatch chain v =>
-      let '(s1, ok) := do_patch sh s chain v in
+      let '(s1, ok) := do_patch_g md sh s chain v in
       report (drain n sh readers sched kc s1) [sbool ok]
   | HPath chain =>
       let '(r, j) := walk (root_reached sh s) chain 0 in
@@ -428,23 +479,38 @@ Definition do_step (sh : shape) (readers : list reader) (sched : list nat)
       | _, _, _ => report s [sbool false]
       end
   | HPoke e =>
-      if Nat.ltb e n then report (drain n sh readers sched kc (wake s e)) [sbool true]
+      if Nat.ltb e n then report (drain n sh readers sched kc (md s e)) [sbool true]
       else report s [sbool false]
   | HNop => report s [sbool false]
   end.
 
-Fixpoint do_steps (sh : shape) (readers : list reader) (sched : list nat)
+Fixpoint do_steps_g (mdf : list nat * list nat -> state -> nat -> state) (sh : shape)
+         (readers : list reader) (sched : list nat)
          (kcs : list (list nat * list nat)) (s : state) (hs : list hstep) : list sexp * state :=
   match hs with
   | [] => ([], s)
   | h :: hs =>
-      let '(o, s1) := do_step sh readers sched (hd ([], []) kcs) s h in
-      let '(os, s2) := do_steps sh readers sched (tl kcs) s1 hs in
+      let kc := hd ([], []) kcs in
+      let '(o, s1) := do_step_g (mdf kc) sh readers sched kc s h in
+      let '(os, s2) := do_steps_g mdf sh readers sched (tl kcs) s1 hs in
       (o :: os, s2)
   end.
 
-(** a whole case: initial runs of all effects, then the history *)
+(** a whole case: creation (and initial runs) of all readers, then the history *)
 Definition simulate (sh : shape) (v : sexp) (readers : list reader) (hs : list hstep)
+           (sched : list nat) (kcs : list (list nat * list nat)) : list sexp :=
+  let n := length readers in
+  let s0 := drain n sh readers sched ([], []) (init_general sh readers v) in
+  let '(o0, s1) := report s0 [] in
+  let '(os, s2) := do_steps_g (mark_dirty sh readers) sh readers sched kcs s1 hs in
+  o0 :: os ++ [st_val s2].
+
+(** the same when every reader is an executor-scheduled effect (kinds 0, 3, 4): mark_dirty is
+    [wake], all tasks are queued at creation *)
+Definition do_step := do_step_g wake.
+Definition do_steps := do_steps_g (fun _ => wake).
+
+Definition simulate_plain (sh : shape) (v : sexp) (readers : list reader) (hs : list hstep)
            (sched : list nat) (kcs : list (list nat * list nat)) : list sexp :=
   let n := length readers in
   let s0 := drain n sh readers sched ([], []) (init_state v n) in
